@@ -41,6 +41,7 @@ type family struct {
 	entries []*entry
 	vars    []variant
 	coldOK  [][]bool // [variant][entry]
+	insMax  int
 }
 
 type variant struct {
@@ -142,10 +143,25 @@ func jsonSafe(s string) bool {
 // rejected), every deletion, adjacent swap, per-character case flip, insertion (strings shorter than insMax) and the
 // whole-string case variants (implementation <=> reference).
 func forVariants(s string, insMax int, f func(class, v string, mustReject bool)) {
+	forVariantsOver(s, func(byte) []byte { return replChars }, replChars[:33], insMax, f) // insertions: charset + '1'
+}
+
+// workerRepl is the replacement alphabet of the sequential history protocol (the full 47-character alphabet is
+// applied to ~2,300 strings in the main process): the other-case spelling of the character, 8 charset symbols, the
+// separator, a non-charset letter, a non-ASCII byte and NUL.
+func workerRepl(orig byte) []byte {
+	out := []byte{'q', 'p', 'z', 'r', 'y', '9', 'x', '8', '1', 'b', 0x80, 0}
+	if c := orig | 0x20; c >= 'a' && c <= 'z' {
+		out = append(out, orig^0x20)
+	}
+	return out
+}
+
+func forVariantsOver(s string, repl func(orig byte) []byte, insChars []byte, insMax int, f func(class, v string, mustReject bool)) {
 	b := []byte(s)
 	for pos := 0; pos < len(b); pos++ {
 		orig := b[pos]
-		for _, c := range replChars {
+		for _, c := range repl(orig) {
 			if c == orig {
 				continue
 			}
@@ -170,7 +186,7 @@ func forVariants(s string, insMax int, f func(class, v string, mustReject bool))
 	}
 	if len(s) < insMax {
 		for pos := 0; pos <= len(s); pos++ {
-			for _, c := range replChars[:33] { // charset + '1'
+			for _, c := range insChars {
 				f("insertion", s[:pos]+string(c)+s[pos:], false)
 			}
 		}
@@ -185,8 +201,13 @@ func newFamily(kind, s string, insMax int) *family {
 	if !ok {
 		panic("harness: canonical string rejected by the reference: " + s)
 	}
-	f := &family{kind: kind, s: s, hrp: h, entries: entriesByKind[kind]}
-	forVariants(s, insMax, func(class, v string, must bool) { f.vars = append(f.vars, variant{class, v, must}) })
+	return &family{kind: kind, s: s, hrp: h, entries: entriesByKind[kind], insMax: insMax}
+}
+
+// build enumerates the variants of the family (only the worker that owns the family needs them).
+func (f *family) build() {
+	s := f.s
+	forVariantsOver(s, workerRepl, []byte{'q', 'l', '1', 'Q'}, f.insMax, func(class, v string, must bool) { f.vars = append(f.vars, variant{class, v, must}) })
 	// every two-letter case flip of the first letters too (mixed case with more than one upper-case letter)
 	var letters []int
 	for i := 0; i < len(s) && len(letters) < 6; i++ {
@@ -202,7 +223,6 @@ func newFamily(kind, s string, insMax int) *family {
 			f.vars = append(f.vars, variant{"case-flip", string(x), false})
 		}
 	}
-	return f
 }
 
 func historyFamilies(kind string, thorough bool) []*family {
@@ -210,11 +230,11 @@ func historyFamilies(kind string, thorough bool) []*family {
 	switch kind {
 	case "address":
 		var addrs []crypto.Address
-		for k := 0; k < 3; k++ {
+		for k := 0; k < 4; k++ {
 			a, _ := crypto.AddressFromBytes(pattern(k, crypto.AddressSize))
 			addrs = append(addrs, a)
 		}
-		n := 1
+		n := 3
 		if thorough {
 			n = 24
 		}
@@ -224,16 +244,13 @@ func historyFamilies(kind string, thorough bool) []*family {
 		for _, a := range addrs {
 			out = append(out, newFamily(kind, crypto.AddressToBech32(a), 64))
 		}
-		out = append(out, newFamily(kind, strings.ToUpper(out[2].s), 64))
-		if thorough {
-			out = append(out, newFamily(kind, strings.ToUpper(out[4].s), 64))
-		}
+		out = append(out, newFamily(kind, strings.ToUpper(out[2].s), 64), newFamily(kind, strings.ToUpper(out[4].s), 64))
 	case "pubkey":
 		out = append(out,
-			newFamily(kind, crypto.PubKeyToBech32(ed25519.GenPrivKeyFromSecret([]byte("c45-ed25519")).PubKey()), 0),
-			newFamily(kind, crypto.PubKeyToBech32(secp256k1.GenPrivKeySecp256k1([]byte("c45-secp256k1")).PubKey()), map[bool]int{false: 0, true: 200}[thorough]),
+			newFamily(kind, crypto.PubKeyToBech32(ed25519.GenPrivKeyFromSecret([]byte("c45-ed25519")).PubKey()), 200),
+			newFamily(kind, crypto.PubKeyToBech32(secp256k1.GenPrivKeySecp256k1([]byte("c45-secp256k1")).PubKey()), 200),
 		)
-		out = append(out, newFamily(kind, strings.ToUpper(out[0].s), 0))
+		out = append(out, newFamily(kind, strings.ToUpper(out[0].s), 200))
 		if thorough {
 			for i := 0; i < 6; i++ {
 				out = append(out, newFamily(kind, crypto.PubKeyToBech32(secp256k1.GenPrivKeySecp256k1([]byte(fmt.Sprintf("c45-secp256k1-%d", i))).PubKey()), 200))
@@ -284,13 +301,14 @@ func probe(e *entry, f *family, s string, mustReject bool) (what, detail string,
 }
 
 type histResult struct {
-	Kind     string           `json:"kind"`
-	Fails    []histFail       `json:"fails"`
-	Evals    int64            `json:"evals"`
-	Outcomes map[string]int64 `json:"outcomes"`
-	Families []string         `json:"families"`
-	Variants int              `json:"variants"`
-	Entries  []string         `json:"entries"`
+	Kind       string           `json:"kind"`
+	Fails      []histFail       `json:"fails"`
+	Evals      int64            `json:"evals"`
+	Outcomes   map[string]int64 `json:"outcomes"`
+	Families   []string         `json:"families"`
+	Variants   int              `json:"variants"`
+	OtherValid int              `json:"other_valid"`
+	Entries    []string         `json:"entries"`
 }
 
 type histFail struct {
@@ -299,8 +317,18 @@ type histFail struct {
 }
 
 // runHistoryWorker is the body of a worker subprocess.
-func runHistoryWorker(kind string) histResult {
+// spec = "<kind>:<k>/<n>": the worker enumerates the variants of the families with index = k mod n; the canonical
+// strings of the other families of the kind are further "other valid strings" of steps 1, 3 and 4.
+func runHistoryWorker(spec string) histResult {
+	var k, n int
+	kind, is, _ := strings.Cut(spec, ":")
+	fmt.Sscanf(is, "%d/%d", &k, &n)
 	fams := historyFamilies(kind, r.Thorough())
+	for i, f := range fams {
+		if n > 0 && i%n == k {
+			f.build()
+		}
+	}
 	res := histResult{Kind: kind, Outcomes: map[string]int64{}}
 	applies := func(e *entry, s string) bool { return !e.printable || jsonSafe(s) }
 	firstValid := map[string]string{} // entry|string -> disagreement ("" = none) of the first decoding in this process
@@ -430,9 +458,12 @@ func runHistoryWorker(kind string) histResult {
 	}
 
 	for _, f := range fams {
-		res.Families = append(res.Families, f.s)
-		res.Variants += len(f.vars)
+		if len(f.vars) > 0 {
+			res.Families = append(res.Families, f.s)
+			res.Variants += len(f.vars)
+		}
 	}
+	res.OtherValid = len(fams) - 1
 	for _, e := range entriesByKind[kind] {
 		res.Entries = append(res.Entries, e.name)
 	}
@@ -450,15 +481,31 @@ func runHistoryWorker(kind string) histResult {
 
 var historyKinds = []string{"address", "pubkey", "generic"}
 
-// startHistoryWorkers launches the sequential protocol in subprocesses; the returned function joins them and folds
-// their results into this run.
+// startHistoryWorkers launches the sequential protocol in subprocesses (three per kind, six at a time); the returned
+// function joins them and folds their results into this run.
 func startHistoryWorkers() (join func() map[string]any) {
-	results := make([]histResult, len(historyKinds))
-	errs := make([]string, len(historyKinds))
-	done := make(chan int, len(historyKinds))
-	for i, kind := range historyKinds {
-		go func(i int, kind string) {
-			cmd := exec.Command(os.Args[0], "-id", r.ID, "-tier", r.Tier, "-worker", kind)
+	var specs []string
+	for _, kind := range historyKinds {
+		n := 3 // worker processes per kind
+		if r.Thorough() {
+			n = 6
+		}
+		if nf := len(historyFamilies(kind, r.Thorough())); nf < n {
+			n = nf
+		}
+		for k := 0; k < n; k++ {
+			specs = append(specs, fmt.Sprintf("%s:%d/%d", kind, k, n))
+		}
+	}
+	results := make([]histResult, len(specs))
+	errs := make([]string, len(specs))
+	done := make(chan int, len(specs))
+	sem := make(chan struct{}, 6)
+	for i, spec := range specs {
+		go func(i int, spec string) {
+			sem <- struct{}{}
+			defer func() { <-sem; done <- i }()
+			cmd := exec.Command(os.Args[0], "-id", r.ID, "-tier", r.Tier, "-worker", spec)
 			cmd.Env = append(os.Environ(), "GOMAXPROCS=1")
 			out, err := cmd.CombinedOutput()
 			ok := false
@@ -472,16 +519,20 @@ func startHistoryWorkers() (join func() map[string]any) {
 				if len(o) > 1500 {
 					o = o[len(o)-1500:]
 				}
-				errs[i] = fmt.Sprintf("history worker %s failed: %v: %s", kind, err, o)
+				errs[i] = fmt.Sprintf("history worker %s failed: %v: %s", spec, err, o)
 			}
-			done <- i
-		}(i, kind)
+		}(i, spec)
 	}
 	return func() map[string]any {
-		for range historyKinds {
+		for range specs {
 			<-done
 		}
-		cov := map[string]any{}
+		type kcov struct {
+			fams, variants, other int
+			evals                 int64
+			entries               []string
+		}
+		per := map[string]*kcov{}
 		for i, res := range results {
 			if errs[i] != "" {
 				r.HarnessError("%s", errs[i])
@@ -510,7 +561,20 @@ func startHistoryWorkers() (join func() map[string]any) {
 				}
 				fmu.Unlock()
 			}
-			cov[res.Kind] = map[string]any{"canonical_strings": len(res.Families), "variants": res.Variants, "entry_points": res.Entries, "decodings": res.Evals}
+			k := per[res.Kind]
+			if k == nil {
+				k = &kcov{}
+				per[res.Kind] = k
+			}
+			k.fams += len(res.Families)
+			k.variants += res.Variants
+			k.other = res.OtherValid
+			k.evals += res.Evals
+			k.entries = res.Entries
+		}
+		cov := map[string]any{"worker_processes": len(specs)}
+		for kind, k := range per {
+			cov[kind] = map[string]any{"canonical_strings": k.fams, "variants": k.variants, "valid_strings_per_worker": k.other + 1, "entry_points": k.entries, "decodings": k.evals}
 		}
 		return cov
 	}
